@@ -28,6 +28,7 @@ func runC10Gaps2(c *eng.Ctx) {
 	c10gRotationEnvelope(c)
 	c10gUpgradeKeyPublished(c)
 	keyringZeroizeOwnership(c, "C10.2")
+	c10gKEKWriters(c)
 }
 
 // c10gRecvKeyring: f is a method with receiver *Keyring.
@@ -719,5 +720,171 @@ func c10gUpgradeKeyPublished(c *eng.Ctx) {
 	}
 	for _, e := range enc {
 		c.Prov(f, "plaintext of the upgrade entry", e, kArgs(e)[4], `^call:barrier\.\(\*Key\)\.Serialize#0$`)
+	}
+}
+
+// c10gFreshAccess: v is, on every path, vault/seal.NewAccess over a wrapper
+// that is vault/seal.NewShamirWrapper() allocated in this function.
+func c10gFreshAccess(v ssa.Value) bool {
+	os := eng.Origins(v)
+	if len(os) == 0 {
+		return false
+	}
+	for _, o := range os {
+		cl, ok := o.Val.(*ssa.Call)
+		if !ok || eng.CalleeName(&cl.Call) != "vault/seal.NewAccess" || len(cl.Call.Args) != 1 {
+			return false
+		}
+		if ok, _, _ := eng.OriginsMatch(cl.Call.Args[0], `^call:vault/seal\.NewShamirWrapper$`); !ok {
+			return false
+		}
+	}
+	return true
+}
+
+// c10gWrapperOwners classifies the Shamir wrapper whose key a
+// SetAesGcmKeyBytes call sets, under the feasibility fe: "fresh" — a wrapper
+// allocated in the function (NewShamirWrapper(), or the wrapper of a throw-away
+// NewDefaultSeal(NewAccess(NewShamirWrapper()))); "live:<seal>" — the wrapper
+// of a seal that exists outside the function (GetShamirWrapper of a parameter,
+// of a field of Core / SealManager); anything else is reported verbatim.
+func c10gWrapperOwners(site ssa.CallInstruction, fe *eng.Feas) []string {
+	w := kArgs(site)[0]
+	if ld, ok := w.(*ssa.UnOp); ok {
+		if fa, ok := ld.X.(*ssa.FieldAddr); ok {
+			w = fa.X // the ShamirWrapper the embedded aead wrapper belongs to
+		}
+	}
+	var out []string
+	for _, r := range eng.Roots(w, fe) {
+		switch x := r.(type) {
+		case *ssa.Call:
+			if eng.CalleeName(&x.Call) == "vault/seal.NewShamirWrapper" {
+				out = append(out, "fresh")
+				continue
+			}
+		case *ssa.Extract:
+			cl, ok := x.Tuple.(*ssa.Call)
+			if ok && x.Index == 0 && cl.Call.IsInvoke() && eng.CalleeName(&cl.Call) == "<vault.Seal>.GetShamirWrapper" {
+				for _, sr := range eng.Roots(cl.Call.Value, fe) {
+					mk, isCall := sr.(*ssa.Call)
+					switch {
+					case isCall && eng.CalleeName(&mk.Call) == "vault.NewDefaultSeal" && len(mk.Call.Args) == 1 && c10gFreshAccess(mk.Call.Args[0]):
+						out = append(out, "fresh")
+					case isCall && eng.CalleeName(&mk.Call) == "vault.NewDefaultSeal":
+						out = append(out, "aliased:NewDefaultSeal("+eng.ExprDeep(mk.Call.Args[0])+")")
+					default:
+						out = append(out, "live:"+eng.Expr(sr))
+					}
+				}
+				continue
+			}
+		}
+		out = append(out, "other:"+eng.ExprDeep(r))
+	}
+	return out
+}
+
+// C10.8 who may write the key-encryption key of a Shamir seal. The wrapper's
+// SetAesGcmKeyBytes replaces the in-memory KEK that SetStoredKeys wraps the
+// root key with; a live seal's KEK may change only on the tabled paths, with
+// the tabled key, behind the tabled guard; candidate keys that are merely
+// being checked (rekey / rotation / generate-root share verification) go into
+// a wrapper allocated in the function. Seals never share a wrapper: every
+// NewDefaultSeal is built over NewAccess(NewShamirWrapper()).
+func c10gKEKWriters(c *eng.Ctx) {
+	const setKey = `aead\.Wrapper\)\.SetAesGcmKeyBytes$`
+	type row struct {
+		class string   // "test" | "live" | "test-if:<param>" (fresh under the parameter, live otherwise)
+		key   []string // allowed origins of the key installed on a live seal
+		guard string   // callee whose success edge a live write lies behind ("" = see why)
+		why   string
+	}
+	table := map[string]row{
+		"vault.(*SealManager).updateRootRotation":  {"test", nil, "", "rotation share check: candidate key tried on a throw-away seal"},
+		"vault.(*Core).BarrierRekeyUpdate":         {"test", nil, "", "rekey share check: candidate key tried on a throw-away seal"},
+		"vault.(*SealManager).unsealKeyToRootKey":  {"test-if:useTestSeal", []string{`^param:combinedKey$`}, "", "useTestSeal (generate-root / rekey authentication): throw-away seal; otherwise the unseal path — the barrier is sealed and the key is verified by decrypting the stored keys with it"},
+		"vault.(*Core).unsealWithRaft":             {"live", []string{`^param:combinedKey$`}, "", "raft unseal path: the barrier is sealed; the key is verified by the stored-key decryption that follows"},
+		"vault.(*SealManager).performRootRotation": {"live", []string{`^param:newSealKey$`}, "", "new seal key of a verified rotation (callers tabled below)"},
+		"vault.(*Core).performBarrierRekey":        {"live", []string{`^param:newSealKey$`}, "", "new seal key of a verified rekey (callers tabled in C10.6)"},
+		"vault.(*Core).initializeInternal":         {"live", []string{`^call:vault\.\(\*Core\)\.generateShares#0$`, `^const:nil$`}, `<barrier\.SecurityBarrier>\.Unseal$`, "first seal key, after the new barrier was initialised and unsealed"},
+		"vault.(*SealManager).InitializeBarrier":   {"live", []string{`^call:vault\.\(\*Core\)\.generateShares#0$`, `^const:nil$`}, `<barrier\.SecurityBarrier>\.Unseal$`, "first seal key of a namespace, after its barrier was initialised and unsealed"},
+		"vault.(*Core).migrateSeal":                {"live", []string{`^call:<vault\.Seal>\.RecoveryKey#0$`}, `<vault\.Seal>\.RecoveryKey$`, "seal migration: the old seal's recovery key becomes the Shamir KEK"},
+		"vault.(*Core).reloadShamirKey":            {"live", []string{`^field:<barrier\.SecurityBarrier>\.Get\(\)#0\.Value$`}, `<barrier\.SecurityBarrier>\.Get$`, "standby reload: the KEK record decrypted (authenticated) by the barrier"},
+	}
+	n := 0
+	for _, f := range c.P.Funcs {
+		if !eng.InPkg(f, "vault") {
+			continue
+		}
+		for _, site := range kCalls(f, setKey) {
+			n++
+			top := eng.FuncName(eng.TopFunc(f))
+			r, ok := table[top]
+			c.Clause("R1", "C10.8")
+			if !ok {
+				c.Violation(f, "callers{ShamirWrapper.SetAesGcmKeyBytes}", site.Pos(), "the key-encryption key of a Shamir wrapper is set outside the reviewed table of KEK writers", nil)
+				continue
+			}
+			c.OK(f, "callers{ShamirWrapper.SetAesGcmKeyBytes}", site.Pos(), r.class+": "+r.why)
+			c.Clause("R5", "C10.8")
+			check := func(what string, fe *eng.Feas, wantLive bool) {
+				ownSite := "wrapper whose KEK is set{" + what + "}"
+				owners := c10gWrapperOwners(site, fe)
+				bad := ""
+				for _, o := range owners {
+					if isLive := strings.HasPrefix(o, "live:"); (wantLive && !isLive) || (!wantLive && o != "fresh") {
+						bad = o
+					}
+				}
+				switch {
+				case len(owners) == 0:
+					c.Undecided(f, ownSite, site.Pos(), "the wrapper cannot be traced to its allocation or its seal (moved? the rule cannot be evaluated)")
+				case bad != "" && wantLive:
+					c.Violation(f, ownSite, site.Pos(), "tabled as a write of the live seal's KEK, but the wrapper is "+bad, nil)
+				case bad != "":
+					c.Violation(f, ownSite, site.Pos(), "a candidate key that is only being checked must go into a wrapper allocated here, but the wrapper is "+bad+": the in-memory KEK of a seal that stays in use is overwritten with an unverified key, and SetStoredKeys will wrap the next root key with it", nil)
+				default:
+					c.OK(f, ownSite, site.Pos(), strings.Join(owners, ", "))
+				}
+			}
+			live := r.class == "live"
+			switch {
+			case r.class == "test":
+				check("throw-away", nil, false)
+			case live:
+				check("live seal", nil, true)
+			default: // test-if:<param>
+				prm := strings.TrimPrefix(r.class, "test-if:")
+				check(prm+" set: throw-away", eng.Feasible(f, map[string]bool{`^` + prm + `$`: true}), false)
+				check(prm+" unset: live seal", eng.Feasible(f, map[string]bool{`^` + prm + `$`: false}), true)
+				live = true
+			}
+			if live {
+				nfProv(c, f, "key installed as a live seal's KEK", site, kArgs(site)[1], nil, r.key...)
+				if r.guard != "" {
+					c.Clause("R2", "C10.8")
+					c.Cut(f, "SetAesGcmKeyBytes on the live seal", []ssa.Instruction{site}, nfGCallOK(f, r.guard), nil)
+				}
+			}
+		}
+	}
+	c.Clause("R1", "C10.8")
+	c.Floor(nil, "calls of ShamirWrapper.SetAesGcmKeyBytes in package vault", n, 10)
+	c.CallerTable("SealManager.performRootRotation", c.P.FindCalls(mustStatic(c, "vault.(*SealManager).performRootRotation"), nil), map[string]string{
+		"vault.(*SealManager).updateRootRotation": "after the rotation shares reached the threshold and the root key was verified",
+		"vault.(*SealManager).VerifyRotation":     "after verification of the new shares",
+	}, 1)
+	// seals never share a wrapper
+	c.Clause("R5", "C10.8")
+	mk := c.P.FindCalls(mustStatic(c, "vault.NewDefaultSeal"), func(fn *ssa.Function) bool { return strings.HasPrefix(eng.PkgPathOf(fn), eng.ModMain+"/internal/") })
+	c.Floor(nil, "calls of NewDefaultSeal", len(mk), 5)
+	for _, s := range mk {
+		site := "a Shamir seal is built over its own fresh wrapper"
+		if a := kArgs(s.Call); len(a) == 1 && c10gFreshAccess(a[0]) {
+			c.OK(s.Fn, site, s.Call.Pos(), "NewAccess(NewShamirWrapper())")
+		} else {
+			c.Violation(s.Fn, site, s.Call.Pos(), "NewDefaultSeal over "+eng.ExprDeep(kArgs(s.Call)[0])+": the new seal shares the wrapper — and with it the in-memory KEK — of another seal; setting a key on either changes both", nil)
+		}
 	}
 }
